@@ -51,7 +51,8 @@ package data
 //@ loop 1 (i IntSet, n rangeindex)
 //@   invariant 0 <= n && n <= len(values)
 //@   invariant inv(i) && fresh(i.data)
-//@   invariant [member] forall x int :: member(i.data, x) == memberN(values, n, x)
+//@   invariant [from] forall k int :: 0 <= k && k < len(i.data) ==> memberN(values, n, i.data[k])
+//@   invariant [to] forall k int :: 0 <= k && k < n ==> member(i.data, values[k])
 
 //@ func (a IntSet) Union(b IntSet) (r IntSet)
 //@   requires inv(a) && inv(b)
